@@ -747,6 +747,7 @@ func gen(t *rapid.T) Case {
 	}
 	o := ymodel.DefaultOpts()
 	o.Budget = 18
+	o.Posix = true // posix-pattern statements of openconfig-extensions in string types
 	o.Extras = true // must, when, status, reference, presence and extension statements on nodes, uses and augments
 	schema.AugmentExtras = true
 	set, _ := schema.Generate(t, o)
